@@ -92,6 +92,17 @@ def gen_abstract(rng, max_groups=3, max_secs=3, block_kinds=B.BLOCK_KINDS,
     for _ in range(rng.randint(1, max_groups)):
         while True:
             tr = gen_twprge(rng, wide)
+            if used and rng.random() < 0.15:
+                # A Twp/Rge whose spelling contains an earlier one's
+                # ('82S-7W' vs '2S-7W'): hostile to text-based substitution.
+                t0, ns0, r0, ew0 = rng.choice(sorted(used))
+                t1 = int(f"{rng.randint(1, 9)}{t0}")
+                if t1 <= 999:
+                    tr = (t1, ns0, r0, ew0)
+            if len(groups) >= 2 and rng.random() < 0.15:
+                # A Twp/Rge that re-appears after a different one (A..B..A).
+                tr = groups[-2][0]
+                break
             if tr not in used:
                 used.add(tr)
                 break
